@@ -10,7 +10,8 @@ PROPERTY = 'C08'
 LEVEL = 'exploration'
 RULE = ('(i) algebra: every expression tree of depth <= 2 over 10 atoms (flags, tracked-vs-constant and tracked-vs-tracked '
         'comparisons, task.done, time >=/</==) x every valuation of the atoms x 3 clock values: bool(e), ~e, ~~e and De Morgan '
-        'agree with an independent evaluator; (ii)/(iii) dynamics: every tree x every change history of <= 2 (quick) / 3 (thorough) '
+        'agree with an independent evaluator, for conditions built afresh and for conditions built at time 0 and kept (including '
+        'time == now built at that very time); (ii)/(iii) dynamics: every tree x every change history of <= 2 (quick) / 3 (thorough) '
         'steps by one or two helper activities at times {0,1,2} (including changes reverted within one time step by another '
         'activity) x 1-2 waiters: a wait returns only while its expression is true and no waiter is left waiting at the end of '
         'a time step in which its expression holds; non-trivial = the waiter had to wait and some atom changed')
@@ -84,6 +85,10 @@ def trees(depth2):
     return out
 
 
+# a moment that is built exactly at its date (and kept, or combined with other atoms, beyond that time step)
+NOW_TREES = [['EQ', 0]] + [t for a in ATOMS for op in ('AND', 'OR') for t in ([op, ['EQ', 0], a], [op, a, ['EQ', 0]])]
+
+
 # ---- (i) algebra, evaluated inside a real simulation ----------------------------------------------
 RES_ATOMS = [['R', 'r', op, {'a': 1}] for op in ('>', '>=', '<', '<=', '==', '!=')]
 
@@ -110,10 +115,22 @@ def algebra_case(case):
             if done:
                 task.cancel()
                 await instant
+            kept = None
             for now in (0, 1, 2):
                 if time.now < now:
                     await (time == now)
                 v = {'A': A, 'B': B, 'X': X, 'Y': Y, 'done:t': done, 'now': time.now, 'start': 0, 'r': {'a': R}}
+                # condition objects that were built at time 0 and kept follow the current values just as fresh ones do
+                if kept is None:
+                    kept = [(tree, interp.cond(tree)) for tree in case['trees']]
+                else:
+                    for tree, c in kept:
+                        count[0] += 1
+                        if bool(c) != ev(tree, v):
+                            msgs.append('bool() of the condition %r built at time 0 is %r at time %r, expected %r with %r' % (
+                                tree, bool(c), time.now, ev(tree, v), v))
+                            if len(msgs) > 5:
+                                return
                 for tree in case['trees']:
                     want = ev(tree, v)
                     c = interp.cond(tree)
@@ -211,6 +228,15 @@ def atoms_of(tree):
     return {tree[1] if tree[0] in ('F', 'T', 'TT', 'DONE', 'R') else 'time'} | ({tree[3]} if tree[0] == 'TT' else set())
 
 
+def subst(tree):
+    """the same tree watching task t2 instead of t"""
+    if tree[0] == 'DONE':
+        return ['DONE', 't2']
+    if tree[0] in ('NOT', 'AND', 'OR'):
+        return [tree[0]] + [subst(x) for x in tree[1:]]
+    return tree
+
+
 def touches(action):
     return {'A+': 'A', 'A-': 'A', 'B+': 'B', 'B-': 'B', 'X+': 'X', 'X-': 'X', 'Y+': 'Y', 'Y-': 'Y', 'T!': 't', 'R+': 'r', 'R-': 'r'}[action]
 
@@ -233,6 +259,8 @@ def cases(tier):
     rtrees = RES_ATOMS + [['NOT', a] for a in RES_ATOMS] + [['AND', a, ['F', 'A']] for a in RES_ATOMS] + [['OR', a, b] for a in RES_ATOMS[:3] for b in RES_ATOMS[3:]]
     for level in (0, 1, 2):
         out.append({'kind': 'algebra', 'val': [True, False, 0, 0, False, level], 'trees': rtrees})
+    for v in vals[::2]:
+        out.append({'kind': 'algebra', 'val': list(v), 'trees': NOW_TREES})
     # (ii)/(iii) dynamics
     hist = histories(2 if tier == 'quick' else 3)
     dyn_trees = all_trees if tier == 'thorough' else trees(False) + [t for i, t in enumerate(trees(True)[len(trees(False)):]) if i % 4 == 0]
@@ -251,9 +279,29 @@ def cases(tier):
                 t_last, a_last = h[-1]
                 if a_last in REVERT:
                     out.append({'kind': 'dyn', 'prog': dyn_program(tree, h, [(t_last, REVERT[a_last])], (0, 0), 1)})
+    for tree in NOW_TREES:
+        at = atoms_of(tree)
+        for h in histories(1):
+            if h and not all(touches(a) in at for _, a in h):
+                continue
+            out.append({'kind': 'dyn', 'prog': dyn_program(tree, h, None, (0, 0), 1)})
+            out.append({'kind': 'dyn', 'prog': dyn_program(tree, h, None, (1, 0), 2)})
     # the watched task is cancelled before its first turn while a waiter is already subscribed to its completion
     for tree in [t for t in dyn_trees if 't' in atoms_of(t)]:
         out.append({'kind': 'dyn', 'prog': dyn_program(tree, [(0, 'T!')], None, (0, 0), 1, task_last=True)})
+    # the watched task is closed together with its scope before its first turn (the scope body raises right after
+    # spawning it / is an until block on a true condition); the waiter comes before or after that
+    for tree in [t for t in trees(False) if 't2' in atoms_of(subst(t))]:
+        tree = subst(tree)
+        for killer in ([['TRY', [['SCOPE', 'k', [['DO', 't2', [['D', 5]]], ['RAISE', 'KeyError', 'k']]]]]],
+                       [['TRY', [['SCOPE', 'k', [['DO', 't2', [['D', 5]], {'after': 1}], ['RAISE', 'KeyError', 'k']]]]]],
+                       [['UNTIL', 'k', ['GE', 0], [['DO', 't2', [['D', 5]]], ['D', 1]]]]):
+            objs = {'A': 'Flag', 'B': 'Flag', 'X': ['Tracked', 0], 'Y': ['Tracked', 0], 'r': ['Resources', {'a': 0}]}
+            waiter = ['DO', 'w1', [['WAIT', tree], ['PROBE', 'now']], {'volatile': True}]
+            late = ['DO', 'w2', [['D', 1], ['WAIT', tree], ['PROBE', 'now']], {'volatile': True}]
+            body = [['DO', 't', [['D', 5]]]] + killer + [waiter, late, ['D', 3]]
+            out.append({'kind': 'dyn', 'prog': {'objs': objs, '_nops': 30, '_tree': tree,
+                                                'roots': [['root', [['SCOPE', 's', body], ['PROBE', 'now']]]]}})
     # depth 3, alternating connectives: the decisive change happens in the innermost leaves
     leaves = [['F', 'A'], ['F', 'B'], ['T', 'X', '>=', 1], ['TT', 'X', '>=', 'Y'], ['R', 'r', '>=', {'a': 1}]]
     for a, b, c, d in itertools.permutations(leaves, 4):
@@ -300,6 +348,7 @@ def judge_dyn(program, faults=()):
             v = dict(data)
             v['start'] = 0
             v.setdefault('done:t', False)
+            v.setdefault('done:t2', False)
             if not ev(tree, v):
                 msgs.append('%s: await returned at %r while the expression %r is false (%r)' % (act, now, tree, data))
             st = next(r for r in log[:idx][::-1] if r[0] == 'start' and r[1] == act and r[2] == pc)
@@ -319,6 +368,7 @@ def judge_dyn(program, faults=()):
         v = dict(snap)
         v['start'] = 0
         v.setdefault('done:t', False)
+        v.setdefault('done:t2', False)
         if waiting and ev(tree, v):
             msgs.append('%r still waiting at the end of time step %r although %r holds (%r)' % (
                 sorted(a for a, _ in waiting), t, tree, snap))
